@@ -73,8 +73,8 @@ def close(ctx, name, got, want, scale=1.0, tol=TOL, mech=None):
         raise Mismatch(mech or name, f"{name}: shape {got.shape}, expected {want.shape} "
                                      f"(got {np.round(got, 4).tolist()[:6]}, expected "
                                      f"{np.round(want, 4).tolist()[:6]})")
-    if got.size and not (np.isfinite(got).all()
-                         and np.abs(got - want).max() <= tol * (1 + scale)):
+    thr = tol * scale if scale > 0 else tol  # relative to the quantity's own magnitude
+    if got.size and not (np.isfinite(got).all() and np.abs(got - want).max() <= thr):
         i = int(np.argmax(np.abs(got - want))) if got.ndim else 0
         g = got.ravel()[i] if got.size else got
         w = want.ravel()[i] if want.size else want
@@ -94,7 +94,7 @@ def check_tree(ctx, case, tree, spec, ref: Ref, soma_ok: bool):
 
     rng = np.random.default_rng(case["seed"])
     n = ref.n
-    scale = float(np.abs(ref.X - ref.X[ref.root]).max()) + 1.0
+    scale = float(np.abs(ref.X - ref.X[ref.root]).max()) or 1.0
     L = ref.length()
     fe = extract_feature(tree)
 
@@ -173,7 +173,7 @@ def check_tree(ctx, case, tree, spec, ref: Ref, soma_ok: bool):
             ds = sorted(set(ref.d.tolist()))
             radii += [ds[int(rng.integers(0, len(ds)))] for _ in range(6)]
             radii += [0.0, rmax]
-        margin = 1e-5 * (1 + rmax)
+        margin = 1e-5 * rmax + 1e-30
         for r in radii:
             m = ref.sholl_margin(r)
             if 0 < m < margin or (m == 0 and not exact):
@@ -361,13 +361,15 @@ def exec_population(ctx, case):
                                                    f"per tree padded to the longest: "
                                                    f"({len(trees)}, {width})")
             for i, w in enumerate(want):
-                scale = float(np.abs(refs[i].X).max()) + refs[i].length() + 1
+                scale = (float(np.abs(refs[i].X - refs[i].X[0]).max()) + refs[i].length()) or 1.0
                 row = got[i]
                 ordered = name in ("node_radial_distance", "tip_radial_distance", "length",
                                    "node_count", "tip_count", "furcation_count")
                 g = row[:len(w)] if ordered else msort(row[:len(w)])
                 e = np.asarray(w, dtype=float) if ordered else msort(w)
-                close(ctx, f"population row {i} of {name}", g, e, scale,
+                dimensionless = "tortuosity" in name or "count" in name or "order" in name
+                close(ctx, f"population row {i} of {name}", g, e, 0.0 if dimensionless else scale,
+                      tol=1e-4 if "tortuosity" in name else (0.1 if dimensionless else TOL),
                       mech="population-value:" + name)
                 ctx.count("population_padding_checked")
                 if len(w) < width and np.any(row[len(w):] != 0):
@@ -390,7 +392,7 @@ def exec_population(ctx, case):
                                                f"({len(trees)}, {len(rs)})")
         for i, r in enumerate(refs):
             for j, rad in enumerate(rs):
-                if r.sholl_margin(rad) < 1e-5 * (1 + rmax):
+                if r.sholl_margin(rad) < 1e-5 * rmax + 1e-30:
                     ctx.skip("sholl radius within rounding of a node distance")
                     continue
                 if int(got[i, j]) != r.sholl(rad):
@@ -419,7 +421,8 @@ def run(ctx):
 
     rng = ctx.rng
     tap = probes.CallTap({"sholl_get": Sholl.get, "features_get": Features.get})
-    geoms = ["growth", "gauss", "far", "int", "pythag", "pythag", "coincident", "axis", "big"]
+    geoms = ["growth", "gauss", "far", "int", "pythag", "pythag", "coincident", "axis", "big",
+             "tiny", "micro"]
     with tap:
         for k in range(ctx.scale(900, 18000)):
             if k % 12 == 11:
